@@ -115,3 +115,15 @@ def deliver(parser, real, cuts=None):
                 out[j] = t
         pos = c
     return out
+
+
+_family = {}
+
+
+def family_lookalikes(name):
+    """names of the bundled table that begin with `name` + '_' and have no decoder of their own (BSC_mmap_extended_info
+    for BSC_mmap, BSC_pread_extended_info for BSC_pread, ...): records a decoder might wrongly adopt from its window"""
+    if name not in _family:
+        dec = set(all_decodable())
+        _family[name] = sorted(n for n in by_name() if n.startswith(name + '_') and n not in dec)[:4]
+    return _family[name]
